@@ -3426,10 +3426,17 @@ class ISLaEmitter(IslaLanguageListener.IslaLanguageListener):
             in_var_name = xpath_expr[0][0][0]
             assert not is_nonterminal(in_var_name)
             in_var = next(
-                var
-                for var in VariablesCollector().collect(formula)
-                if var.name == in_var_name
+                (
+                    var
+                    for var in VariablesCollector().collect(formula)
+                    if var.name == in_var_name
+                ),
+                self.constant if in_var_name == self.constant.name else None,
             )
+            if in_var is None:
+                raise RuntimeError(
+                    f"Unknown variable {in_var_name} in XPath expression."
+                )
             bound_var_type = xpath_expr[1][0][0]
             assert is_nonterminal(bound_var_type)
 
